@@ -695,7 +695,8 @@ def nesting_bound(ctx):
         if not rec:
             continue
         pidx = tys[1:].index("usize")
-        if all(re.match(r"^Sub\(.+,1\)$", sh(ne(g.deep(c.args[pidx])))) for g, c in rec if len(c.args) > pidx):
+        # (a budget decremented outside the closure that visits the items is captured by it: `let inner = limit - 1; any(|i| i.f(inner))`)
+        if all(re.match(r"^\*?Sub\(.+, ?1(_usize)?\)$", (prog.captured_text(g, sh(ne(g.deep(c.args[pidx])))) if "{closure" in g.id else sh(ne(g.deep(c.args[pidx]))))) for g, c in rec if len(c.args) > pidx):
             res["P"] = fid
             res["pidx"] = pidx
             # every item is examined: the call that visits the items (any / a loop) is gated by the budget test and the
